@@ -1,6 +1,7 @@
 import RLV.Model.Comp
 import RLV.Lemmas.Kill
 import RLV.Lemmas.CompLine
+import RLV.Gen.CompFacts
 /-! C14 — Completion only rewrites the word being completed (property theorems).
 
 `Comp.insertCandidate` is the model of `(*Engine).insertCandidate` (and of `acceptCandidate`, which
@@ -98,5 +99,24 @@ example : (match selects { line := [108, 115, 32, 102, 105, 32, 45, 108], cur :=
                (cancel s true).line == [108, 115, 32, 102, 105, 32, 45, 108] &&
                (cancel s false).line == [108, 115, 32, 102, 105, 110, 100, 32, 45, 108]
     | .error _ => false) = true := by decide
+
+/-- Tie to the source (regenerated by `rlv-dump` on every run): in internal/completion the virtual
+line and cursor are assigned by `insertCandidate` (and `Init`) only, and changed in place by `Cancel`,
+`cancelCompletedLine` and `insertCandidate` only — the functions `Model/CompLine` has a definition
+for; the REAL line and cursor are changed by `Cancel` and `acceptCandidate` (modelled) and by the four
+functions of features outside the model (`CompleteSyntax`: autopairs, `IsearchStop` and
+`updateIncrementalSearch`: incremental search, `TrimSuffix`: suffix matchers). Another writer anywhere
+in the package breaks this theorem. -/
+theorem the_two_lines_are_written_by_these_functions_only :
+    Gen.CompFacts.fieldWriters.lookup "compLine" = some ["Engine.insertCandidate", "Init"] ∧
+    Gen.CompFacts.fieldWriters.lookup "compCursor" = some ["Engine.insertCandidate", "Init"] ∧
+    Gen.CompFacts.changers.lookup "compLine" =
+      some ["Engine.Cancel", "Engine.cancelCompletedLine", "Engine.insertCandidate"] ∧
+    Gen.CompFacts.changers.lookup "compCursor" =
+      some ["Engine.Cancel", "Engine.cancelCompletedLine", "Engine.insertCandidate"] ∧
+    Gen.CompFacts.changers.lookup "line" =
+      some ["Engine.Cancel", "Engine.CompleteSyntax", "Engine.IsearchStop", "Engine.TrimSuffix",
+            "Engine.acceptCandidate", "Engine.updateIncrementalSearch"] ∧
+    Gen.CompFacts.changers.lookup "cursor" = Gen.CompFacts.changers.lookup "line" := by decide
 
 end RLV.Props.C14
